@@ -22,7 +22,7 @@
 From mathcomp Require Import all_ssreflect all_algebra.
 From Verif.lib Require Import MatOps MatMC MatLemmas.
 From Verif.model Require Import Kalman.
-From Verif.proofs Require Import KalmanProofs SmootherProofs BatchProofs.
+From Verif.proofs Require Import KalmanProofs SmootherProofs BatchProofs UnknownInitProofs.
 Set Implicit Arguments.
 Unset Strict Implicit.
 Import GRing.Theory.
@@ -73,6 +73,20 @@ Theorem C08_deviation_commutes (abar a : 'cV[F]_n) (Q : 'M[F]_n) (ps : seq (peri
       @contributions M n nw vs dev = @contributions M n nw vs lev].
 Proof. exact: deviation_commutes_run. Qed.
 
+(* 6. unit-root models (diffuse_method="fixed_unknown"): correcting the cached run for the estimated unknown
+      part of the initial state (the Xi recursion of predict, estimate_unknown_init, correct_for_unknown_init)
+      IS the filter run started from the initial mean a + Xi_init delta -- so theorems 1-5 hold for what
+      kalman_filter returns for such models as well; delta solves the GLS normal equations *)
+Theorem C08_unknown_init_is_rerun k (a : 'cV[F]_n) (Q : 'M[F]_n) (ps : seq (period M n nw)) (Xi : 'M[F]_(n, k)) :
+  @correct_for_unknown_init M n nw k Xi (krun a Q ps)
+  = krun (a + Xi *m @estimate_unknown_init M n nw k (krun a Q ps) (@xi_run M n nw k Xi None (krun a Q ps))) Q ps.
+Proof. exact: correct_for_unknown_init_is_rerun. Qed.
+
+Theorem C08_unknown_init_normal_equations k (fs : seq (fper M n nw)) (Xis : seq 'M[F]_(n, k)) :
+  gls_S fs Xis \in unitmx ->
+  gls_S fs Xis *m @estimate_unknown_init M n nw k fs Xis = gls_b fs Xis.
+Proof. exact: estimate_solves_normal_equations. Qed.
+
 Section Mapping.
 Variables nu nyf nxi : nat.
 Variable s : solution M n nw nu nyf nxi.
@@ -119,6 +133,8 @@ Print Assumptions C08_smooth_is_simulation.
 Print Assumptions C08_smooth_reproduces_data.
 Print Assumptions C08_update_reproduces_data.
 Print Assumptions C08_deviation_commutes.
+Print Assumptions C08_unknown_init_is_rerun.
+Print Assumptions C08_unknown_init_normal_equations.
 Print Assumptions C08_observed_rows.
 Print Assumptions C08_generated_periods_ok.
 Print Assumptions C08_output_mapping.
